@@ -23,11 +23,12 @@ def SVOk (L : LibLaws) : ST → SV → Prop
   | _, _ => False
 
 /-- A field value of declared type `ty` inside the property's domain. An unset scalar is `none`; digest and list
-    fields are never `none` in a record (their default is an empty digest / an empty list). -/
-def FieldOk (L : LibLaws) (ty : Text) (v : FV) : Prop :=
+    fields are never `none` in a record (their default is an empty digest / an empty list) unless the record class
+    uses the keyword-tolerant constructor (`kw`), which keeps `None`. -/
+def FieldOk (L : LibLaws) (kw : Bool) (ty : Text) (v : FV) : Prop :=
   ∃ st isList, parseType ty = some (st, isList) ∧ (st = .bytes → ty ∈ b64Types) ∧
     match v with
-    | .none => isList = false ∧ st ≠ .digest
+    | .none => kw = true ∨ (isList = false ∧ st ≠ .digest)
     | .one sv => isList = false ∧ SVOk L st sv
     | .list xs => isList = true ∧ ∀ x ∈ xs, SVOk L st x
 
@@ -103,15 +104,17 @@ theorem encElem_ne_null (v : SV) : encElem v ≠ .null := by
   cases v <;> simp [encElem]
 
 /-- One field: the value found under its key, coerced by the constructor. -/
-theorem decField_encField (L : LibLaws) (ty : Text) (v : FV) (h : FieldOk L ty v) :
-    decField L ty (some (encField ty v)) = .ok (canonFV v) := by
+theorem decField_encField (L : LibLaws) (kw : Bool) (ty : Text) (v : FV) (h : FieldOk L kw ty v) :
+    decField L kw ty (some (encField ty v)) = .ok (canonFV v) := by
   obtain ⟨st, isList, hpt, hb, hv⟩ := h
   have hb' : st = .bytes → decide (ty ∈ b64Types) = true := fun e => decide_eq_true (hb e)
   cases v with
   | none =>
-    obtain ⟨hl, hd⟩ := hv
-    subst hl
-    simp only [decField, hpt, encField, Bool.false_eq_true, if_false, if_neg hd, canonFV]
+    rcases hv with hk | ⟨hl, hd⟩
+    · subst hk
+      simp only [decField, hpt, encField, if_true, canonFV]
+    · subst hl
+      cases kw <;> simp only [decField, hpt, encField, Bool.false_eq_true, if_false, if_true, if_neg hd, canonFV]
   | list xs =>
     obtain ⟨hl, hxs⟩ := hv
     subst hl
@@ -209,10 +212,10 @@ theorem lookup_encFields (fs : List (Text × Text)) (vs : List FV) (extra : List
         exact ih vs (by simpa using hlen) hnd.2 p hp
 
 /-- Decoding slot by slot, when every slot's key finds a well-typed written value. -/
-theorem decSlots_of_lookup (L : LibLaws) (kvs : List (Text × JVal)) (fs : List (Text × Text)) (vs : List FV)
+theorem decSlots_of_lookup (L : LibLaws) (kw : Bool) (kvs : List (Text × JVal)) (fs : List (Text × Text)) (vs : List FV)
     (hlen : fs.length = vs.length)
-    (h : ∀ p ∈ fs.zip vs, lookupT p.1.2 kvs = some (encField p.1.1 p.2) ∧ FieldOk L p.1.1 p.2) :
-    decSlots L kvs fs = .ok (vs.map canonFV) := by
+    (h : ∀ p ∈ fs.zip vs, lookupT p.1.2 kvs = some (encField p.1.1 p.2) ∧ FieldOk L kw p.1.1 p.2) :
+    decSlots L kw kvs fs = .ok (vs.map canonFV) := by
   induction fs generalizing vs with
   | nil => cases vs with
     | nil => rfl
@@ -224,7 +227,7 @@ theorem decSlots_of_lookup (L : LibLaws) (kvs : List (Text × JVal)) (fs : List 
       obtain ⟨ty, nm⟩ := f
       have h0 := h ((ty, nm), v) (by simp)
       have hrest := ih vs (by simpa using hlen) (fun p hp => h p (by simp [hp]))
-      simp only [decSlots, h0.1, decField_encField L ty v h0.2, hrest, List.map_cons]
+      simp only [decSlots, h0.1, decField_encField L kw ty v h0.2, hrest, List.map_cons]
 
 theorem dropKeys_append (ks : List Text) (xs ys : List (Text × JVal))
     (hx : ∀ k ∈ keysOf xs, k ∉ ks) (hy : ∀ k ∈ keysOf ys, k ∈ ks) : dropKeys ks (xs ++ ys) = xs := by
@@ -247,7 +250,7 @@ theorem dropKeys_append (ks : List Text) (xs ys : List (Text × JVal))
 /-- A record inside the property's domain. -/
 structure WellTyped (L : LibLaws) (r : Rec) : Prop where
   len : r.vals.length = (allFields r.desc).length
-  fields : ∀ p ∈ (allFields r.desc).zip r.vals, FieldOk L p.1.1 p.2
+  fields : ∀ p ∈ (allFields r.desc).zip r.vals, FieldOk L (kwInit r.desc) p.1.1 p.2
   nodup : (slotNames r.desc).Nodup
   noMarker : kType ∉ slotNames r.desc ∧ kIdent ∉ slotNames r.desc
   reserved : ∃ pre src cls g, r.vals = pre ++ [src, cls, .one (.dt g), .one (.int Gen.RECORD_VERSION)]
@@ -283,7 +286,7 @@ theorem construct_encFields (L : LibLaws) (r : Rec) (h : WellTyped L r) :
     simpa [slotNames] using this
   have hlook := lookup_encFields (allFields r.desc) r.vals [] h.len.symm h.nodup
   simp only [List.append_nil] at hlook
-  have hdec := decSlots_of_lookup L (encFields (allFields r.desc) r.vals) (allFields r.desc) r.vals h.len.symm
+  have hdec := decSlots_of_lookup L (kwInit r.desc) (encFields (allFields r.desc) r.vals) (allFields r.desc) r.vals h.len.symm
     (fun p hp => ⟨hlook p hp, h.fields p hp⟩)
   obtain ⟨g, hg⟩ := generated_found L r [] h
   simp only [List.append_nil] at hg
@@ -477,13 +480,15 @@ theorem plain_fallback (L : LibLaws) (r : Rec) (h : WellTyped L r)
   simp only [fromJsonPlain, hd, hu, hres, if_true, ls, lc, lg]
 
 
-theorem fieldOk_none (L : LibLaws) {ty : Text} {st : ST} (h1 : parseType ty = some (st, false))
-    (h2 : st = .bytes → ty ∈ b64Types) (h3 : st ≠ .digest) : FieldOk L ty .none := ⟨st, false, h1, h2, rfl, h3⟩
+theorem fieldOk_none (L : LibLaws) (kw : Bool) {ty : Text} {st : ST} (h1 : parseType ty = some (st, false))
+    (h2 : st = .bytes → ty ∈ b64Types) (h3 : st ≠ .digest) : FieldOk L kw ty .none :=
+  ⟨st, false, h1, h2, Or.inr ⟨rfl, h3⟩⟩
 
-theorem fieldOk_one (L : LibLaws) {ty : Text} {st : ST} {sv : SV} (h1 : parseType ty = some (st, false))
-    (h2 : st = .bytes → ty ∈ b64Types) (h3 : SVOk L st sv) : FieldOk L ty (.one sv) := ⟨st, false, h1, h2, rfl, h3⟩
+theorem fieldOk_one (L : LibLaws) (kw : Bool) {ty : Text} {st : ST} {sv : SV} (h1 : parseType ty = some (st, false))
+    (h2 : st = .bytes → ty ∈ b64Types) (h3 : SVOk L st sv) : FieldOk L kw ty (.one sv) := ⟨st, false, h1, h2, rfl, h3⟩
 
-theorem fieldOk_list (L : LibLaws) {ty : Text} {st : ST} {xs : List SV} (h1 : parseType ty = some (st, true))
-    (h2 : st = .bytes → ty ∈ b64Types) (h3 : ∀ x ∈ xs, SVOk L st x) : FieldOk L ty (.list xs) := ⟨st, true, h1, h2, rfl, h3⟩
+theorem fieldOk_list (L : LibLaws) (kw : Bool) {ty : Text} {st : ST} {xs : List SV} (h1 : parseType ty = some (st, true))
+    (h2 : st = .bytes → ty ∈ b64Types) (h3 : ∀ x ∈ xs, SVOk L st x) : FieldOk L kw ty (.list xs) :=
+  ⟨st, true, h1, h2, rfl, h3⟩
 
 end FlowRecord.Json
